@@ -377,7 +377,13 @@ func WithMoreUpdateMask(mask *fieldmaskpb.FieldMask) WriteOption {
 		if request.UpdateMask == nil {
 			return // a nil update mask means all fields are writable anyway
 		}
-		request.UpdateMask = fieldmaskpb.Union(request.UpdateMask, mask)
+		// The paths are appended as given, not merged with fieldmaskpb.Union: Union normalizes, which drops
+		// a path nested below another one, so an unknown path like "a.bogus" next to an added "a" would
+		// never reach validation. Applying the mask copes with duplicate and overlapping paths.
+		paths := make([]string, 0, len(request.UpdateMask.GetPaths())+len(mask.GetPaths()))
+		paths = append(paths, request.UpdateMask.GetPaths()...)
+		paths = append(paths, mask.GetPaths()...)
+		request.UpdateMask = &fieldmaskpb.FieldMask{Paths: paths}
 	})
 }
 
